@@ -29,6 +29,7 @@ broadcast use {rustc_hash::axiom_fx_builds_valid_hashers, stdcoll::axiom_btreema
 //@ include units/C11/graph_core.rs
 //@ include units/C11/graph_client.rs
 //@ include units/C11/graph_trav.rs
+//@ include units/C11/graph_dom.rs
 
 proof fn vf_canary_graph() ensures false {}
 } // mod graph
